@@ -10,11 +10,15 @@ CONSTANTS Objects,    \* initial objects to choose from
 ThrArgs == (-1)..7                     \* thresholds in doubled coordinates
 TgtArgs == {<<k, 6>> : k \in (-1)..7}   \* targets k/6
 
-VARIABLES store, calls, last
-svars == <<store, calls, last>>
+(* arr[h] = <<identity of h's pos array, identity of its neg array>>: swap() does NOT copy the   *)
+(* score arrays, the mirrored object shares them with its source, so a write INTO an array is     *)
+(* seen through every object holding it                                                            *)
+VARIABLES store, calls, last, arr
+svars == <<store, calls, last, arr>>
 
 SInit == /\ \E o \in Objects : store = <<o>>
-         /\ calls = 0 /\ last = [op |-> "new"]
+         /\ calls = 0 /\ last = [op |-> "new"] /\ arr = << <<1, 2>> >>
+FreshId == 100 + calls
 
 DefinedFor(o, op) ==
   CASE op \in {"threshold_at_tpr", "threshold_at_fnr"} -> Len(o.pos) > 0
@@ -29,11 +33,12 @@ Query(h, op, shape, arg) ==
   /\ h \in DOMAIN store /\ DefinedFor(store[h], op)
   /\ Len(arg) = Prod(shape)
   /\ last' = [op |-> op, h |-> h, shape |-> shape, arg |-> arg]
-  /\ UNCHANGED store
+  /\ UNCHANGED <<store, arr>>
 (* swap(): a constructor - adds an object, changes none                           *)
 SwapCall(h) ==
   /\ calls < MaxCalls /\ calls' = calls + 1 /\ h \in DOMAIN store /\ Len(store) < 3
   /\ store' = Append(store, SwapObj(store[h]))
+  /\ arr' = Append(arr, <<arr[h][2], arr[h][1]>>)          \* the same two arrays, roles exchanged
   /\ last' = [op |-> "swap", h |-> h, shape |-> <<>>, arg |-> <<>>]
 
 (* the caller assigns new easy-sample counts to the public attributes of a live    *)
@@ -42,6 +47,7 @@ SetEasy(h, ep, en) ==
   /\ calls < MaxCalls /\ calls' = calls + 1 /\ h \in DOMAIN store
   /\ <<ep, en>> # <<store[h].ep, store[h].en>>
   /\ store' = [store EXCEPT ![h] = [@ EXCEPT !.ep = ep, !.en = en]]
+  /\ UNCHANGED arr
   /\ last' = [op |-> "set_easy", h |-> h, shape |-> <<>>, arg |-> <<ep, en>>]
 
 (* ... or a new configuration (as enum member or as the plain string the library's  *)
@@ -50,6 +56,7 @@ SetConfig(h, sc, ec) ==
   /\ calls < MaxCalls /\ calls' = calls + 1 /\ h \in DOMAIN store
   /\ <<sc, ec>> # <<store[h].sc, store[h].ec>>
   /\ store' = [store EXCEPT ![h] = [@ EXCEPT !.sc = sc, !.ec = ec]]
+  /\ UNCHANGED arr
   /\ last' = [op |-> "set_config", h |-> h, shape |-> <<>>, arg |-> <<sc, ec>>]
 (* ... or re-binds one of the (sorted) score arrays                                *)
 NewScores == {<<0, 2>>, <<1, 1, 3>>, <<2>>, <<0, 1, 2, 3>>}
@@ -57,8 +64,19 @@ SetScores(h, cls, seq) ==
   /\ calls < MaxCalls /\ calls' = calls + 1 /\ h \in DOMAIN store
   /\ seq # (IF cls = "pos" THEN store[h].pos ELSE store[h].neg)
   /\ store' = [store EXCEPT ![h] = IF cls = "pos" THEN [@ EXCEPT !.pos = seq] ELSE [@ EXCEPT !.neg = seq]]
+  /\ arr' = [arr EXCEPT ![h] = IF cls = "pos" THEN <<FreshId, @[2]>> ELSE <<@[1], FreshId>>]   \* a NEW array
   /\ last' = [op |-> "set_scores", h |-> h, shape |-> <<>>, arg |-> <<cls, seq>>]
-Assignments == {"set_easy", "set_config", "set_scores"}
+(* ... or adds a constant to every score IN PLACE (the arrays keep their identity)   *)
+ShiftScores(h, d) ==
+  /\ calls < MaxCalls /\ calls' = calls + 1 /\ h \in DOMAIN store
+  /\ LET hit == {arr[h][1], arr[h][2]}
+         sh(seq) == [i \in DOMAIN seq |-> seq[i] + d]
+     IN store' = [k \in DOMAIN store |->
+                    [store[k] EXCEPT !.pos = IF arr[k][1] \in hit THEN sh(@) ELSE @,
+                                     !.neg = IF arr[k][2] \in hit THEN sh(@) ELSE @]]
+  /\ UNCHANGED arr
+  /\ last' = [op |-> "shift_scores", h |-> h, shape |-> <<>>, arg |-> <<d>>]
+Assignments == {"set_easy", "set_config", "set_scores", "shift_scores"}
 
 (* argument arrays: instead of every array over the value set (9^n of them) the  *)
 (* machine picks a (seed, stride) pair and fills the array with the values        *)
@@ -75,13 +93,15 @@ SNext == \/ \E h \in DOMAIN store, op \in QueryOps, shape \in Shapes :
          \/ \E h \in DOMAIN store, ep \in {0, 2}, en \in {0, 1, 3} : SetEasy(h, ep, en)
          \/ \E h \in DOMAIN store, sc \in {"pos", "neg"}, ec \in {"pos", "neg"} : SetConfig(h, sc, ec)
          \/ \E h \in DOMAIN store, cls \in {"pos", "neg"}, seq \in NewScores : SetScores(h, cls, seq)
+         \/ \E h \in DOMAIN store, d \in {1, 2} : ShiftScores(h, d)
 SSpec == SInit /\ [][SNext]_svars
 
 (* C10 as an action property of the specification itself                          *)
 IsQuery == last'.op \in QueryOps
 QueriesAreSideEffectFree == [][IsQuery => UNCHANGED store]_svars
 StoreOnlyGrows == [][\A h \in DOMAIN store : h \in DOMAIN store' /\
-                         (store'[h] = store[h] \/ (last'.op \in Assignments /\ last'.h = h))]_svars
+                         (store'[h] = store[h] \/ (last'.op \in Assignments /\ last'.h = h)
+                          \/ (last'.op = "shift_scores" /\ {arr[h][1], arr[h][2]} \cap {arr[last'.h][1], arr[last'.h][2]} # {}))]_svars
 (* an attribute assignment changes exactly the assigned fields of exactly that object   *)
 SetEasyIsLocal == [][last'.op = "set_easy" /\ last' # last =>
                        /\ Len(store') = Len(store)
@@ -90,5 +110,8 @@ SetEasyIsLocal == [][last'.op = "set_easy" /\ last' # last =>
                             /\ store'[h].sc = store[h].sc /\ store'[h].ec = store[h].ec]_svars
 AssignmentsAreLocal == [][last'.op \in Assignments /\ last' # last =>
                             /\ Len(store') = Len(store)
-                            /\ \A h \in DOMAIN store : h # last'.h => store'[h] = store[h]]_svars
+                            /\ \A h \in DOMAIN store :
+                                 (h # last'.h /\ (last'.op # "shift_scores" \/
+                                    {arr[h][1], arr[h][2]} \cap {arr[last'.h][1], arr[last'.h][2]} = {}))
+                                 => store'[h] = store[h]]_svars
 =============================================================================
